@@ -9,6 +9,7 @@ Ok(i) == LET ev == T[i] IN
            [] ev.e = "cast" -> CastAllowed(ev)
            [] ev.e = "boundary" -> ev.form = "tainted" \/ (i > 1 /\ BoundaryAllowed(T[i - 1], ev))
            [] ev.e = "formpair" -> FormPairAllowed(ev)
+           [] ev.e = "cbptr" -> CbPtrAllowed(ev)
            [] OTHER -> FALSE
 Bad == {i \in 1..Len(T) : ~Ok(i)}
 ASSUME PrintT(<<"RESULT", ToJson([bad |-> Bad, n |-> Len(T)])>>)
